@@ -32,7 +32,7 @@ COMPONENTS = {
     'stub': ['WSGI/ASGI servers and clients', 'event loop scheduler', 'responders executing the access history'],
 }
 EXPECTED_PROBES = ('io_error', 'json_doc', 'form_doc', 'plus_json', 'empty_body', 'truncated', 'corrupted', 'default_used',
-                   'repeat_call', 'asgi_multi_chunk', 'error_cached', 'wsgi', 'asgi')
+                   'repeat_call', 'parse_attempts_counted', 'asgi_multi_chunk', 'error_cached', 'wsgi', 'asgi')
 ASSUMPTIONS = (
     'documents contain no lone surrogates, NaN/Infinity or a top-level null (resp.media = None means "no media")',
     'form mappings use str values or lists of >=2 strs (a 1-element list legitimately comes back as a str)',
@@ -97,6 +97,28 @@ class _Sim(object):
         self.ctx.probe(name)
 
 
+class CountingHandler(falcon.media.BaseHandler):
+    """Delegates to a stock handler and counts the parse attempts (no optimised sync protocol, so
+    the framework goes through deserialize()/deserialize_async())."""
+
+    def __init__(self, inner, calls):
+        self.inner = inner
+        self.calls = calls
+        self.exhaust_stream = inner.exhaust_stream
+
+    def serialize(self, media, content_type=None):
+        return self.inner.serialize(media, content_type)
+
+    def deserialize(self, stream, content_type, content_length):
+        self.calls.append('sync')
+        return self.inner.deserialize(stream, content_type, content_length)
+
+    async def deserialize_async(self, stream, content_type, content_length):
+        self.calls.append('async')
+        return await self.inner.deserialize_async(stream, content_type, content_length)
+
+
+PARSE_CALLS = {}     # id(app) -> parse attempts (App has __slots__)
 DEFAULT_A = {'sentinel': 'A'}
 DEFAULT_B = ['sentinel', 'B']
 
@@ -121,6 +143,12 @@ def make_app(asgi, kind, ctype, doc, hist, out, counter, propagate, prerender=Fa
         h = falcon.media.JSONHandler()
         app.req_options.media_handlers['application/vnd.api+json'] = h
         app.resp_options.media_handlers['application/vnd.api+json'] = falcon.media.JSONHandler()
+    parse_calls = PARSE_CALLS[id(app)] = []
+    if handler_variant == 'counting':
+        for mt in ('application/json', 'application/x-www-form-urlencoded', 'application/vnd.api+json'):
+            inner = app.req_options.media_handlers.get(mt)
+            if inner is not None:
+                app.req_options.media_handlers[mt] = CountingHandler(inner, parse_calls)
 
     def record(req, call, fn):
         before = counter()
@@ -276,6 +304,7 @@ def asgi_request(ctx, app, method, path, headers, events, holder, recv_suspends,
 
 def run(ctx):
     ch = ctx.ch
+    PARSE_CALLS.clear()
     asgi = bool(ch.draw(2, 'asgi'))
     ctx.probe('asgi' if asgi else 'wsgi')
     kind = 'form' if ch.draw(4, 'kind') == 3 else 'json'
@@ -302,7 +331,7 @@ def run(ctx):
     cut_draws = [ch.draw(1000, 'cut') for _ in range(n_cuts)]
     prerender = [0, 0, 1, 2][ch.draw(4, 'prerender')]
     custom_resp = ch.draw(3, 'custom_response_type') == 2
-    handler_variant = 'bytes_dumps' if ch.draw(4, 'handler_variant') == 3 else None
+    handler_variant = [None, None, None, 'bytes_dumps', 'counting'][ch.draw(5, 'handler_variant')]
     omit_cl = ch.draw(4, 'omit_content_length') == 3      # ASGI only: chunked upload without Content-Length
     short_reads = False     # a single read() is what the handlers do; buffered wsgi.input returns it all
 
@@ -463,6 +492,13 @@ def run(ctx):
         ctx.violate('media.escaped', 'exception escaped the app: %r' % (exc,))
         return
     stack = 'asgi' if asgi else 'wsgi'
+    if handler_variant == 'counting':
+        ctx.probe('parse_attempts_counted')
+        n_parse = len(PARSE_CALLS.get(id(app2), ()))
+        if n_parse > 1:
+            ctx.violate('media.parsed_once', 'the media handler was asked to parse the body %d times during one '
+                        'request (access history %r)' % (n_parse, hist), what='handler_calls',
+                        stack=stack, kind=kind)
     ctx.ops_done = len(out)
     ctx.nontrivial = len(out) >= 2 or fault is not None
     if len(out) >= 2:
